@@ -8,6 +8,12 @@
 //! stage of every dispatcher of the case (top level, batches, nested batches) that has at least
 //! two groups is the target of one experiment of `reps` dispatches.
 //!
+//! `exec=async` cases may drive the `AsyncDispatcher` with a *sequence of calls* per repetition
+//! (`script=ddrdw`: dispatch / wait / wait_without_tl / running / world, then a final wait) and hold
+//! the first system of the first stage inside `run` for `delay` ms while the experiment is on a
+//! later stage — so that a job which a later `dispatch()` put on the pool has certainly been picked
+//! up when the wide stage starts (`gen_seq_case`; see `notes/C11.md`).
+//!
 //! The real side of a case runs in a **child process** of this binary (`rendezvous --child`)
 //! started with `RAYON_NUM_THREADS` = the case's `env`, because that variable (or the number of
 //! cores) is what sizes a default pool; the parent owns the Lean driver, generates the cases,
@@ -59,6 +65,14 @@ pub struct RCfg {
     pub reps: usize,
     /// demonstration only (never generated): let the waiter sit behind a batch of its own group
     pub wafter: bool,
+    /// `exec=async` only: the calls made on the `AsyncDispatcher` per repetition, one letter each —
+    /// `d` dispatch, `w` wait, `n` wait_without_tl, `r` running, `o` world — followed by a final
+    /// `wait`. Empty = `dispatch(); wait();`.
+    pub script: String,
+    /// milliseconds the first system of the top-level dispatcher's first stage stays inside `run`
+    /// while the experiment is on a later stage (so that whatever was queued on the pool meanwhile has
+    /// certainly been picked up when the wide stage starts)
+    pub delay: u64,
 }
 impl RCfg {
     pub fn line(&self) -> String {
@@ -68,14 +82,21 @@ impl RCfg {
             PoolCfg::Late(p) => format!("late:{}", p),
         };
         let inner = if self.inner.is_empty() { "-".to_string() } else { self.inner.iter().map(|(k, v)| format!("{}:{}", k, v)).collect::<Vec<_>>().join(",") };
-        format!("rdv exec={} caller={} entry={} pool={} env={} inner={} wpos={} reps={}{}", self.exec, self.caller, self.entry, pool, self.env, inner, self.wpos, self.reps, if self.wafter { " wafter=1" } else { "" })
+        let mut l = format!("rdv exec={} caller={} entry={} pool={} env={} inner={} wpos={} reps={}{}", self.exec, self.caller, self.entry, pool, self.env, inner, self.wpos, self.reps, if self.wafter { " wafter=1" } else { "" });
+        if !self.script.is_empty() {
+            l.push_str(&format!(" script={}", self.script));
+        }
+        if self.delay > 0 {
+            l.push_str(&format!(" delay={}", self.delay));
+        }
+        l
     }
     pub fn parse(l: &str) -> Option<RCfg> {
         let mut p = l.split_whitespace();
         if p.next()? != "rdv" {
             return None;
         }
-        let mut c = RCfg { exec: "sync".into(), caller: "main".into(), entry: "dispatch".into(), pool: PoolCfg::Default, env: 4, inner: BTreeMap::new(), wpos: 0, reps: 1, wafter: false };
+        let mut c = RCfg { exec: "sync".into(), caller: "main".into(), entry: "dispatch".into(), pool: PoolCfg::Default, env: 4, inner: BTreeMap::new(), wpos: 0, reps: 1, wafter: false, script: String::new(), delay: 0 };
         for kv in p {
             let (k, v) = kv.split_once('=')?;
             match k {
@@ -105,13 +126,44 @@ impl RCfg {
                 "wpos" => c.wpos = v.parse().ok()?,
                 "reps" => c.reps = v.parse().ok()?,
                 "wafter" => c.wafter = v == "1",
+                "script" => c.script = v.into(),
+                "delay" => c.delay = v.parse().ok()?,
                 _ => return None,
             }
         }
         if c.env == 0 || c.reps == 0 {
             return None;
         }
+        if !c.script.is_empty() && (c.exec != "async" || c.caller != "main" || !c.script.contains('d') || c.script.chars().any(|x| !"dwnro".contains(x))) {
+            return None;
+        }
         Some(c)
+    }
+    /// `dispatch()` calls per repetition
+    pub fn dispatches(&self) -> usize {
+        if self.script.is_empty() {
+            1
+        } else {
+            self.script.chars().filter(|c| *c == 'd').count()
+        }
+    }
+    /// `dispatch()` calls that follow another one with no blocking call (`wait`, `wait_without_tl`, `world`) in between
+    pub fn back_to_back(&self) -> usize {
+        let mut n = 0;
+        let mut open = false;
+        for c in self.script.chars() {
+            match c {
+                'd' => {
+                    if open {
+                        n += 1;
+                    }
+                    open = true;
+                }
+                'r' => {}
+                _ => open = false,
+            }
+        }
+        n
     }
     pub fn top_pool(&self) -> usize {
         match self.pool {
@@ -177,6 +229,9 @@ pub struct Rdv {
     st: Mutex<RdvSt>,
     cv: Condvar,
     deadline_ms: AtomicU64,
+    /// tag of the system that sleeps `delay_ms` inside `run` (`usize::MAX` = none)
+    delayer: AtomicUsize,
+    delay_ms: AtomicU64,
 }
 impl Rdv {
     fn new() -> Arc<Rdv> {
@@ -184,6 +239,8 @@ impl Rdv {
             st: Mutex::new(RdvSt { active: false, waiters: BTreeSet::new(), want: 0, count: 0, met: 0, aborted: false, obs: BTreeMap::new(), off_pool: BTreeSet::new() }),
             cv: Condvar::new(),
             deadline_ms: AtomicU64::new(1000),
+            delayer: AtomicUsize::new(usize::MAX),
+            delay_ms: AtomicU64::new(0),
         })
     }
     fn set_target(&self, waiters: BTreeSet<usize>, deadline_ms: u64) {
@@ -199,6 +256,7 @@ impl Rdv {
     fn clear_target(&self) -> (u64, bool) {
         let mut g = self.st.lock().unwrap();
         g.active = false;
+        self.delayer.store(usize::MAX, SeqCst);
         (g.met, g.aborted)
     }
     fn aborted(&self) -> bool {
@@ -209,6 +267,9 @@ impl Rdv {
     /// Arrivals are numbered; round r is complete when (r+1)·want have arrived. A stage execution
     /// ends before the next one begins, so rounds never mix.
     fn arrive(&self, tag: usize) {
+        if self.delayer.load(SeqCst) == tag && !self.aborted() {
+            std::thread::sleep(Duration::from_millis(self.delay_ms.load(SeqCst)));
+        }
         let on = rayon::current_thread_index().is_some();
         let size = if on { rayon::current_num_threads() } else { 0 };
         let mut g = self.st.lock().unwrap();
@@ -458,7 +519,7 @@ pub fn exec_case(cfg: &RCfg, ops: &[Op], deadline_ms: u64, short_ms: u64) -> Vec
     };
     layout_lines(&lay, None, &mut out);
     let mut tg = vec![];
-    targets(&lay, None, cfg.reps, &ns, &mut tg);
+    targets(&lay, None, cfg.reps * cfg.dispatches(), &ns, &mut tg);
     let has_tl = !lay.tl.is_empty();
     let world = full_world();
     let foreign = if cfg.caller == "foreign" { Some(make_pool(1)) } else { None };
@@ -520,6 +581,17 @@ pub fn exec_case(cfg: &RCfg, ops: &[Op], deadline_ms: u64, short_ms: u64) -> Vec
             })
             .collect();
         rdv.set_target(waiters, dl);
+        // the stage of the top-level dispatcher this experiment happens in (or under); if it is not
+        // the first one, the first system of the first stage takes `delay` ms
+        let top_stage = match key_path.first() {
+            None => t.stage,
+            Some(outer) => lay.stages.iter().position(|st| st.iter().flatten().any(|x| x == outer)).unwrap_or(0),
+        };
+        let delayer = if cfg.delay > 0 && top_stage >= 1 { lay.stages.first().and_then(|st| st.first()).and_then(|g| g.first()).cloned() } else { None };
+        if let Some(dt) = delayer {
+            rdv.delay_ms.store(cfg.delay, SeqCst);
+            rdv.delayer.store(dt, SeqCst);
+        }
         let t0 = Instant::now();
         for _ in 0..cfg.reps {
             match &mut runner {
@@ -546,8 +618,26 @@ pub fn exec_case(cfg: &RCfg, ops: &[Op], deadline_ms: u64, short_ms: u64) -> Vec
                     }
                 }
                 Runner::Async(ad) => {
-                    ad.dispatch();
-                    ad.wait();
+                    if cfg.script.is_empty() {
+                        ad.dispatch();
+                        ad.wait();
+                    } else {
+                        for c in cfg.script.chars() {
+                            match c {
+                                'd' => ad.dispatch(),
+                                'w' => ad.wait(),
+                                'n' => ad.wait_without_tl(),
+                                'r' => {
+                                    let _ = ad.running();
+                                }
+                                _ => {
+                                    let _ = ad.world();
+                                }
+                            }
+                        }
+                        // nothing is in flight when the next experiment is set up
+                        ad.wait();
+                    }
                 }
             }
             if rdv.aborted() {
@@ -558,7 +648,7 @@ pub fn exec_case(cfg: &RCfg, ops: &[Op], deadline_ms: u64, short_ms: u64) -> Vec
         let (met, aborted) = rdv.clear_target();
         shared.take_log();
         out.push(format!(
-            "target {} {} {} {} {} {} {} {} {}",
+            "target {} {} {} {} {} {} {} {} {} {}",
             t.key.map(|k| k.to_string()).unwrap_or_else(|| "top".into()),
             t.stage,
             w,
@@ -567,7 +657,8 @@ pub fn exec_case(cfg: &RCfg, ops: &[Op], deadline_ms: u64, short_ms: u64) -> Vec
             if aborted { 1 } else { 0 },
             ms,
             minp,
-            dl
+            dl,
+            delayer.map(|d| d.to_string()).unwrap_or_else(|| "-".into())
         ));
         if aborted && w <= minp {
             // an unexcused failure: the case is decided
@@ -721,8 +812,10 @@ pub struct Eval {
     pub multi_member_targets: usize,
     pub batch_member_targets: usize,
     pub skipped: Option<String>,
-    /// systems of the first stage whose rendezvous failed without excuse
+    /// systems of the first stage whose rendezvous failed without excuse (and the system that delayed the stages before it)
     pub fail_tags: Vec<usize>,
+    /// that failure happened while the first stage was being held up (`delay`)
+    pub fail_delayed: bool,
 }
 
 pub struct Runner2 {
@@ -731,6 +824,8 @@ pub struct Runner2 {
     pub deadline: u64,
     pub short: u64,
     pub children_started: u64,
+    /// how long (beyond three deadlines) a child may take for one case
+    pub patience: u64,
 }
 
 /// the calls that touch pool slots, as tokens of the driver's `pool plan` request
@@ -750,7 +845,7 @@ fn plan_tokens(ops: &[Op], cfg: &RCfg, widths: &BTreeMap<Option<usize>, Vec<usiz
 
 impl Runner2 {
     pub fn new(deadline: u64, short: u64) -> Runner2 {
-        Runner2 { kids: BTreeMap::new(), pool1: make_pool(1), deadline, short, children_started: 0 }
+        Runner2 { kids: BTreeMap::new(), pool1: make_pool(1), deadline, short, children_started: 0, patience: 30_000 }
     }
     fn real(&mut self, cfg: &RCfg, ops: &[Op], deadline: u64, short: u64) -> Result<Vec<String>, String> {
         let mut lines = vec![cfg.line()];
@@ -759,7 +854,7 @@ impl Runner2 {
             self.kids.insert(cfg.env, Kid::spawn(cfg.env));
             self.children_started += 1;
         }
-        let patience = Duration::from_millis(30_000 + 3 * deadline);
+        let patience = Duration::from_millis(self.patience + 3 * deadline);
         let r = self.kids.get_mut(&cfg.env).unwrap().run(&lines, deadline, short, patience);
         if r.is_err() {
             // a fresh process for whatever comes next
@@ -804,7 +899,10 @@ impl Runner2 {
             toks.push(format!("p{}", p));
         }
         let topw = widths.get(&None).cloned().unwrap_or_default();
-        let req = format!("pool plan {} {} {}", cfg.env, if topw.is_empty() { "-".to_string() } else { topw.iter().map(|x| x.to_string()).collect::<Vec<_>>().join(".") }, toks.join(" "));
+        // an async dispatcher driven by a sequence of calls: one group of verdicts per `dispatch()`
+        let nd = cfg.dispatches();
+        let head = if cfg.script.is_empty() { "pool plan".to_string() } else { format!("pool aplan {}", cfg.script) };
+        let req = format!("{} {} {} {}", head, cfg.env, if topw.is_empty() { "-".to_string() } else { topw.iter().map(|x| x.to_string()).collect::<Vec<_>>().join(".") }, toks.join(" "));
         let ans = drv.ask(req.trim_end());
         let mut mpool: BTreeMap<Option<usize>, (usize, Vec<char>)> = BTreeMap::new();
         for w in ans.split_whitespace() {
@@ -812,8 +910,17 @@ impl Runner2 {
                 let key = if k == "top" { None } else { k.parse().ok() };
                 if let Some((size, verdicts)) = v.split_once(':') {
                     if let (true, Ok(size)) = (k == "top" || key.is_some(), size.parse::<usize>()) {
-                        mpool.insert(key, (size, verdicts.chars().collect()));
-                        continue;
+                        if cfg.script.is_empty() {
+                            mpool.insert(key, (size, verdicts.chars().collect()));
+                            continue;
+                        }
+                        // a stage completes its experiment iff it does in every dispatch of the sequence
+                        let per: Vec<Vec<char>> = verdicts.split('/').map(|g| g.chars().collect()).collect();
+                        if per.len() == nd && per.iter().all(|g| g.len() == per[0].len()) {
+                            let all: Vec<char> = (0..per[0].len()).map(|i| if per.iter().all(|g| g[i] == 'c') { 'c' } else { 'd' }).collect();
+                            mpool.insert(key, (size, all));
+                            continue;
+                        }
                     }
                 }
             }
@@ -866,12 +973,12 @@ impl Runner2 {
             }
         }
         ev.depth = Op::depth(ops);
-        ev.layout_key = format!("{} {} {} {:?} {}", cfg.exec, cfg.caller, cfg.entry, cfg.pool, lk);
+        ev.layout_key = format!("{} {} {} {:?} {}{}", cfg.exec, cfg.caller, cfg.entry, cfg.pool, lk, if cfg.script.is_empty() { String::new() } else { format!(" script={}", cfg.script) });
         // the experiments
         for l in &lines {
             let p: Vec<&str> = l.split_whitespace().collect();
             match p.as_slice() {
-                ["target", k, stage, w, execs, met, aborted, ms, minp, dl] => {
+                ["target", k, stage, w, execs, met, aborted, ms, minp, dl, delayer] => {
                     let key = keyof(k);
                     let (stage, w, execs, met, minp): (usize, usize, usize, usize, usize) = (stage.parse().unwrap_or(0), w.parse().unwrap_or(0), execs.parse().unwrap_or(0), met.parse().unwrap_or(0), minp.parse().unwrap_or(0));
                     let aborted = *aborted == "1";
@@ -904,6 +1011,10 @@ impl Runner2 {
                     if !ok && w <= minp {
                         if ev.fail_tags.is_empty() {
                             ev.fail_tags = groups.iter().flatten().cloned().collect();
+                            if let Ok(d) = delayer.parse::<usize>() {
+                                ev.fail_tags.push(d);
+                                ev.fail_delayed = true;
+                            }
                         }
                         ev.impl_v.push(format!("{} although every pool involved has at least {} threads and nothing else occupies them", what, minp));
                     }
@@ -1094,7 +1205,7 @@ pub fn gen_case(seed: u64, c: u64, env: usize, reps: usize, p_negative: u64, drv
         _ => PoolCfg::Late(2 + rng.below(7) as usize),
     };
     let exec = if rng.chance(30) { "async" } else { "sync" };
-    let mut cfg = RCfg { exec: exec.into(), caller: "main".into(), entry: "dispatch".into(), pool, env, inner: BTreeMap::new(), wpos: rng.below(3) as u8, reps, wafter: false };
+    let mut cfg = RCfg { exec: exec.into(), caller: "main".into(), entry: "dispatch".into(), pool, env, inner: BTreeMap::new(), wpos: rng.below(3) as u8, reps, wafter: false, script: String::new(), delay: 0 };
     if exec == "sync" {
         cfg.caller = match rng.below(100) {
             0..=64 => "main",
@@ -1181,6 +1292,121 @@ pub fn gen_case(seed: u64, c: u64, env: usize, reps: usize, p_negative: u64, drv
     (label, cfg, ops)
 }
 
+/// A case about *sequences of calls* on an async dispatcher: a stage of `width` groups — exactly as
+/// wide as the pool, or narrower — behind zero to two narrow stages (the first of which can be told
+/// to take `delay` ms), and a script of two to four `dispatch()` calls, back to back or separated by
+/// `wait` / `wait_without_tl` / `running` / `world`.
+pub fn gen_seq_case(seed: u64, c: u64, env: usize, reps: usize, p_negative: u64) -> (String, RCfg, Vec<Op>) {
+    let mut rng = Rng::new(seed, 0x5E9_0000 + c);
+    let negative = rng.chance(p_negative);
+    // the width first, then a pool of exactly that many threads or a few more
+    let kind = if env >= 2 { rng.below(100) } else { 50 };
+    let (pool, width) = if kind < 35 {
+        // default pool: `env` threads
+        let cap = env.min(12);
+        let width = if cap == 2 || rng.chance(65) { cap } else { 2 + rng.below(cap as u64 - 2) as usize };
+        (PoolCfg::Default, width)
+    } else {
+        let span = if rng.chance(25) { 11 } else { 5 };
+        let width = 2 + rng.below(span) as usize;
+        let p = if rng.chance(65) { width } else { width + 1 + rng.below(3) as usize };
+        (if kind < 85 { PoolCfg::User(p) } else { PoolCfg::Late(p) }, width)
+    };
+    let mut cfg = RCfg { exec: "async".into(), caller: "main".into(), entry: "dispatch".into(), pool, env, inner: BTreeMap::new(), wpos: rng.below(3) as u8, reps, wafter: false, script: String::new(), delay: 0 };
+    let width = if negative { cfg.top_pool() + 1 } else { width };
+    // the calls
+    let nd = 2 + rng.below(3) as usize;
+    let mut script = String::from("d");
+    for _ in 1..nd {
+        match rng.below(100) {
+            0..=59 => {}
+            60..=74 => script.push('r'),
+            75..=84 => script.push('w'),
+            85..=91 => script.push('n'),
+            92..=96 => script.push('o'),
+            _ => script.push_str("rr"),
+        }
+        script.push('d');
+    }
+    if rng.chance(35) {
+        script.push(*rng.pick(&['r', 'w', 'n', 'o']));
+    }
+    cfg.script = script;
+    // the registrations
+    let mut ops = vec![];
+    let mut tag = 0usize;
+    let hint = if rng.chance(50) { 1 + rng.below(5) as u8 } else { 0 };
+    let t = |rng: &mut Rng| if hint == 0 { 1 + rng.below(5) as u8 } else { hint };
+    let pre = match rng.below(100) {
+        0..=14 => 0,
+        15..=74 => 1,
+        _ => 2,
+    };
+    let mut prev: Vec<String> = vec![];
+    let mut by_dep = false;
+    for _ in 0..pre {
+        if !prev.is_empty() {
+            ops.push(Op::Barrier);
+        }
+        prev.clear();
+        for _ in 0..(1 + rng.below(100) / 70) {
+            let name = format!("q{}", tag);
+            ops.push(Op::Sys { tag, name: name.clone(), deps: vec![], r: vec![], w: vec![], t: t(&mut rng) });
+            prev.push(name);
+            tag += 1;
+        }
+    }
+    if pre > 0 {
+        by_dep = rng.chance(30);
+        if !by_dep {
+            ops.push(Op::Barrier);
+        }
+        if !rng.chance(10) {
+            cfg.delay = 10 + rng.below(16);
+        }
+    }
+    let touch = rng.below(3);
+    let batch_at = if rng.chance(15) { Some(rng.below(width as u64) as usize) } else { None };
+    let mut leaders = vec![];
+    for g in 0..width {
+        let name = format!("q{}", tag);
+        let deps = if by_dep { prev.clone() } else { vec![] };
+        let mine: Res = ((g % NTY as usize) as u8, (g / NTY as usize) as u64 % NDY);
+        if batch_at == Some(g) {
+            // a batch in the wide stage whose own stage is as wide as the pool allows, too
+            let btag = tag;
+            tag += 1;
+            let iw = 2 + rng.below(width as u64 - 1) as usize;
+            let inner: Vec<Op> = (0..iw)
+                .map(|_| {
+                    tag += 1;
+                    Op::Sys { tag: tag - 1, name: format!("q{}", tag - 1), deps: vec![], r: vec![], w: vec![], t: t(&mut rng) }
+                })
+                .collect();
+            ops.push(Op::Batch { tag: btag, name: name.clone(), deps, ctl: 0, t: t(&mut rng), n: 1 + rng.below(2) as usize, inner });
+        } else {
+            let w = if touch == 1 || (touch == 2 && rng.chance(50)) { vec![mine] } else { vec![] };
+            ops.push(Op::Sys { tag, name: name.clone(), deps, r: vec![], w, t: t(&mut rng) });
+            tag += 1;
+        }
+        leaders.push(name);
+    }
+    // second members for some groups
+    for _ in 0..rng.below(1 + width as u64 / 2) {
+        let l = rng.pick(&leaders).clone();
+        ops.push(Op::Sys { tag, name: format!("q{}", tag), deps: vec![l], r: vec![], w: vec![], t: 1 + rng.below(2) as u8 });
+        tag += 1;
+    }
+    if rng.chance(30) {
+        ops.push(Op::Barrier);
+        for _ in 0..(1 + rng.below(2)) {
+            ops.push(Op::Sys { tag, name: format!("q{}", tag), deps: vec![], r: vec![], w: vec![], t: t(&mut rng) });
+            tag += 1;
+        }
+    }
+    (format!("seq:{}:{}", seed, c), cfg, ops)
+}
+
 fn simplify_cfg(cfg: &RCfg, pred: &mut dyn FnMut(&RCfg) -> bool) -> RCfg {
     let mut cur = cfg.clone();
     let mut cands: Vec<Box<dyn Fn(&RCfg) -> RCfg>> = vec![];
@@ -1188,7 +1414,10 @@ fn simplify_cfg(cfg: &RCfg, pred: &mut dyn FnMut(&RCfg) -> bool) -> RCfg {
     cands.push(Box::new(|c| RCfg { inner: BTreeMap::new(), ..c.clone() }));
     cands.push(Box::new(|c| RCfg { caller: "main".into(), ..c.clone() }));
     cands.push(Box::new(|c| RCfg { entry: "dispatch".into(), ..c.clone() }));
-    cands.push(Box::new(|c| RCfg { exec: "sync".into(), ..c.clone() }));
+    cands.push(Box::new(|c| RCfg { exec: "sync".into(), script: String::new(), ..c.clone() }));
+    // a sequence of calls: without the calls that are not `dispatch`, then with two dispatches only
+    cands.push(Box::new(|c| RCfg { script: c.script.chars().filter(|x| *x == 'd').collect(), ..c.clone() }));
+    cands.push(Box::new(|c| RCfg { script: if c.dispatches() > 2 { c.script.replacen('d', "", c.dispatches() - 2) } else { c.script.clone() }, ..c.clone() }));
     cands.push(Box::new(|c| RCfg { wpos: 0, ..c.clone() }));
     cands.push(Box::new(|c| RCfg { pool: if let PoolCfg::Late(p) = c.pool { PoolCfg::User(p) } else { c.pool.clone() }, ..c.clone() }));
     for f in cands {
@@ -1265,6 +1494,8 @@ pub fn run_generated(args: &Args, rep: &mut Report, drv: &mut Drv) {
     let shrink_ms = args.num("shrink-ms", 250);
     let shrink_budget_ms = args.num("shrink-budget-ms", 9000);
     let p_negative = args.num("negative-pct", 4);
+    let seq_cases = args.num("seq-cases", 40);
+    let seq_reps = args.num("seq-reps", 1) as usize;
     let envs: Vec<usize> = args.str("envs", "2,3,4,6,8").split(',').filter_map(|x| x.parse().ok()).filter(|x| *x > 0).collect();
     let mut r2 = Runner2::new(deadline, short);
     let mut todo: Vec<(String, RCfg, Vec<Op>)> = vec![];
@@ -1298,6 +1529,12 @@ pub fn run_generated(args: &Args, rep: &mut Report, drv: &mut Drv) {
                     todo.push(gen_case(seed, c, *env, reps, p_negative, drv, &r2.pool1));
                 }
             }
+            // sequences of calls on an async dispatcher
+            for c in 0..seq_cases {
+                if (c as usize) % envs.len() == ei {
+                    todo.push(gen_seq_case(seed, c, *env, seq_reps, p_negative));
+                }
+            }
         }
     }
     let mut reported: BTreeSet<String> = BTreeSet::new();
@@ -1320,6 +1557,22 @@ pub fn run_generated(args: &Args, rep: &mut Report, drv: &mut Drv) {
         });
         if !cfg.inner.is_empty() {
             rep.count("gen_cases_with_pool_on_a_batch_builder");
+        }
+        if !cfg.script.is_empty() {
+            rep.count("gen_seq_cases");
+            rep.add("gen_seq_dispatch_calls", (cfg.dispatches() * cfg.reps) as u64);
+            rep.add("gen_seq_dispatches_back_to_back", (cfg.back_to_back() * cfg.reps) as u64);
+            for (c, name) in [('w', "wait"), ('n', "wait_without_tl"), ('r', "running"), ('o', "world")] {
+                rep.add(&format!("gen_seq_calls_{}", name), cfg.script.chars().filter(|x| *x == c).count() as u64);
+            }
+            if cfg.delay > 0 {
+                rep.count("gen_seq_cases_with_slow_first_stage");
+            }
+            if ev.max_width == cfg.top_pool() {
+                rep.count("gen_seq_cases_widest_stage_equals_pool");
+            } else if ev.max_width < cfg.top_pool() {
+                rep.count("gen_seq_cases_pool_larger_than_widest_stage");
+            }
         }
         rep.add("gen_rendezvous_experiments", ev.targets as u64);
         rep.add("gen_rendezvous_met", ev.targets_met as u64);
@@ -1347,27 +1600,36 @@ pub fn run_generated(args: &Args, rep: &mut Report, drv: &mut Drv) {
             let until = Instant::now() + Duration::from_millis(shrink_budget_ms);
             let mut small_ops = ops.clone();
             let mut small_cfg = cfg.clone();
+            // a candidate counts as failing only if it fails the way the original did: if that was with
+            // the first stage held up (certain interleaving), a failure without it (a race) is not kept
+            let need_delay = ev.fail_delayed;
+            let fails = move |e: &Eval| !e.impl_v.is_empty() && (!need_delay || e.fail_delayed);
+            // a candidate that hangs is not waited for as patiently as a first run
+            r2.patience = 8_000;
             // first guess: the systems of the failing stage and the batches around them
             if !ev.fail_tags.is_empty() {
                 let cand = filter_ops(&ops, &ev.fail_tags);
                 let cc = prune_inner(&cfg, &cand);
-                if cand != ops && !r2.eval(&cc, &cand, drv, shrink_ms, short.min(shrink_ms)).impl_v.is_empty() {
+                if cand != ops && fails(&r2.eval(&cc, &cand, drv, shrink_ms, short.min(shrink_ms))) {
                     small_ops = cand;
                     small_cfg = cc;
                 }
             }
+            // fewer repetitions / calls first: every later candidate is cheaper for it
+            small_cfg = simplify_cfg(&small_cfg, &mut |c: &RCfg| Instant::now() <= until && fails(&r2.eval(c, &small_ops, drv, shrink_ms, short.min(shrink_ms))));
             let base_cfg = small_cfg.clone();
             small_ops = shrink(&small_ops, &mut |c: &[Op]| {
                 if Instant::now() > until {
                     return false;
                 }
                 let cc = prune_inner(&base_cfg, c);
-                !r2.eval(&cc, c, drv, shrink_ms, short.min(shrink_ms)).impl_v.is_empty()
+                fails(&r2.eval(&cc, c, drv, shrink_ms, short.min(shrink_ms)))
             });
             small_cfg = prune_inner(&small_cfg, &small_ops);
-            small_cfg = simplify_cfg(&small_cfg, &mut |c: &RCfg| Instant::now() <= until && !r2.eval(c, &small_ops, drv, shrink_ms, short.min(shrink_ms)).impl_v.is_empty());
+            small_cfg = simplify_cfg(&small_cfg, &mut |c: &RCfg| Instant::now() <= until && fails(&r2.eval(c, &small_ops, drv, shrink_ms, short.min(shrink_ms))));
+            r2.patience = 30_000;
             let mut confirm = r2.eval(&small_cfg, &small_ops, drv, deadline, short);
-            if confirm.impl_v.is_empty() {
+            if !fails(&confirm) {
                 small_ops = ops.clone();
                 small_cfg = cfg.clone();
                 confirm = ev.clone();
